@@ -529,7 +529,13 @@ class FnTranslator:
                     col, mask = self.as_load(tgt.value), sl
                 if isinstance(s, ast.AugAssign):
                     val = ast.BinOp(left=col, op=s.op, right=s.value)
-                out.append(ast.Assign(targets=[col], value=ast.IfExp(test=mask, body=val, orelse=col)))
+                ife = ast.IfExp(test=mask, body=val, orelse=col)
+                if not isinstance(sl, ast.Tuple):
+                    # arr[i] (op)= e reads as a masked store when i is a boolean mask; when i turns out to be an INTEGER
+                    # it is a store to the single element arr[i] (see norm_assign), never a mask
+                    elem_val = val if not isinstance(s, ast.AugAssign) else ast.BinOp(left=self.as_load(tgt), op=s.op, right=s.value)
+                    ife._store = (tgt, elem_val)
+                out.append(ast.Assign(targets=[col], value=ife))
                 continue
             out.append(s)
         for x in out:
@@ -572,10 +578,10 @@ class FnTranslator:
                 return '(' + ', '.join(self.coerce(self.expr(e, env), t) for e, t in zip(s.value.elts, ret)) + ')'
             return self.coerce(self.expr(s.value, env), ret)
         if isinstance(s, ast.Assign):
-            key = self.target_key(s.targets[0]) if len(s.targets) == 1 else None
+            key, vnode = self.norm_assign(s, env) if len(s.targets) == 1 else (None, None)
             if key is None:
-                raise Refuse('%s: only `name = expr` / `table[\'column\'] = expr` assignments' % self.rel)
-            v = self.value_maybe_nan(s.value, env)
+                raise Refuse('%s: only `name = expr` / `table[\'column\'] = expr` / `array[index] = expr` assignments' % self.rel)
+            v = self.value_maybe_nan(vnode, env)
             nm = self.new(''.join(c if c.isalnum() else '_' for c in key).strip('_'))
             env2 = dict(env)
             env2[key] = (nm, v[1])
@@ -643,14 +649,17 @@ class FnTranslator:
                     return ('(match %s with\n   | Some %s => if %s then %s else %s\n   | None => %s end)'
                             % (env[name][0], inner, c, th, els, els))
                 return '(if %s then %s\n   else %s)' % (self.cond(s.test, env), self.block(s.body, env, ret), els)
-            # assignment-only branches: both branches assign the same single variable set
-            tv = self.assigned_only(s.body)
-            ev = self.assigned_only(s.orelse) if s.orelse else {}
-            if tv is None or ev is None:
+            # assignment-only branches (possibly nested ifs of assignments): each branch is evaluated SEQUENTIALLY in its
+            # own environment, so a later statement of a branch sees the earlier ones; the if yields the final value of
+            # every variable assigned on either side
+            tkeys = self.assigned_keys(s.body, env)
+            ekeys = self.assigned_keys(s.orelse, env) if s.orelse else []
+            if tkeys is None or ekeys is None:
                 raise Refuse('%s: unsupported if-statement shape' % self.rel)
-            names = sorted(set(tv) | set(ev))
-            env2 = dict(env)
-            lets = []
+            names = list(dict.fromkeys(tkeys + ekeys))
+            for v in names:
+                if v not in env and not (v in tkeys and v in ekeys):
+                    raise Refuse('%s: %s assigned on one branch only and not defined before' % (self.rel, v))
             if nw is not None:
                 name, restc, need_truthy = nw
                 oty = env[name][1]
@@ -662,34 +671,125 @@ class FnTranslator:
                     parts.append(self.truthy(envn[name]))
                 parts += [self.cond(r, envn) for r in restc]
                 c = ' && '.join(parts) if parts else 'true'
-            for v in names:
-                if v in ev:
-                    b = self.expr(ev[v], env)
-                elif v in env:
-                    b = env[v]
-                else:
-                    raise Refuse('%s: %s assigned on one branch only and not defined before' % (self.rel, v))
-                if nw is not None:
-                    a = self.expr(tv[v], envn) if v in tv else env.get(v)
-                    if a is None:
-                        raise Refuse('%s: %s assigned on one branch only and not defined before' % (self.rel, v))
-                    a0, b0, ty = self.unify(a, b)
-                    term = '(match %s with Some %s => if %s then %s else %s | None => %s end)' % (
-                        env[name][0], inner, c, a0, b0, b0)
-                else:
-                    a = self.expr(tv[v], env) if v in tv else env.get(v)
-                    if a is None:
-                        raise Refuse('%s: %s assigned on one branch only and not defined before' % (self.rel, v))
-                    a0, b0, ty = self.unify(a, b)
-                    term = '(if %s then %s else %s)' % (self.cond(s.test, env), a0, b0)
-                nm = self.new(v)
-                lets.append((nm, term))
+                then_env = envn
+            else:
+                c = self.cond(s.test, env)
+                then_env = env
+            tvals = self.branch_values(s.body, then_env, names)
+            evals = self.branch_values(s.orelse or [], env, names)
+            # unify the types of the two sides per variable
+            types, tt, et = [], [], []
+            for (ta, tya), (eb, tyb) in zip(tvals[1], evals[1]):
+                x, y, ty = self.unify((ta, tya), (eb, tyb))
+                tt.append(x); et.append(y); types.append(ty)
+            def wrap(lets, finals):
+                body = '(' + ', '.join(finals) + ')' if len(finals) > 1 else finals[0]
+                for nm, term in reversed(lets):
+                    body = '(let %s := %s in %s)' % (nm, term, body)
+                return body
+            tterm, eterm = wrap(tvals[0], tt), wrap(evals[0], et)
+            if nw is not None:
+                whole = '(match %s with Some %s => if %s then %s else %s | None => %s end)' % (env[name][0], inner, c, tterm, eterm, eterm)
+            else:
+                whole = '(if %s then %s else %s)' % (c, tterm, eterm)
+            env2 = dict(env)
+            nms = [self.new(v) for v in names]
+            for v, nm, ty in zip(names, nms, types):
                 env2[v] = (nm, ty)
             body = self.block(rest, env2, ret)
-            for nm, term in reversed(lets):
-                body = '(let %s := %s in\n   %s)' % (nm, term, body)
-            return body
+            if len(nms) == 1:
+                return '(let %s := %s in\n   %s)' % (nms[0], whole, body)
+            return "(let '(%s) := %s in\n   %s)" % (', '.join(nms), whole, body)
         raise Refuse('%s: unsupported statement %s' % (self.rel, type(s).__name__))
+
+    def assigned_keys(self, stmts, env):
+        """keys assigned by a block made only of assignments and nested ifs of such blocks (None otherwise)"""
+        out = []
+        for s in stmts:
+            if isinstance(s, ast.Pass) or (isinstance(s, ast.Expr) and isinstance(s.value, ast.Constant)):
+                continue
+            if isinstance(s, ast.Assign) and len(s.targets) == 1:
+                k = self.norm_assign(s, env)[0]
+                if k is None:
+                    return None
+                out.append(k)
+            elif isinstance(s, ast.If) and not self.is_raise_guard(s):
+                a = self.assigned_keys(s.body, env)
+                b = self.assigned_keys(s.orelse, env) if s.orelse else []
+                if a is None or b is None:
+                    return None
+                out += a + b
+            else:
+                return None
+        return list(dict.fromkeys(out))
+
+    def norm_assign(self, s, env):
+        """(key, value node) of an assignment statement; a desugared `arr[i] = e` whose i is an integer is a store to the
+        element arr[i] (a variable named by the source text `arr[i]`), not a masked store"""
+        t, v = s.targets[0], s.value
+        st = getattr(v, '_store', None)
+        if st is not None:
+            try:
+                ity = self.expr(st[0].slice, env)[1]
+            except Refuse:
+                ity = None
+            if ity == 'Z':
+                for node in (st[1],):
+                    ast.fix_missing_locations(ast.Expression(body=node))
+                return ast.unparse(st[0]), st[1]
+            if ity not in ('B', None):
+                raise Refuse('%s: store at an index of type %s' % (self.rel, ity))
+        return self.assign_key(t), v
+
+    def assign_key(self, t):
+        """variable named by an assignment target: a name, tbl['col'], or an array element arr[<index expression>]
+        (identified by the source text of the whole target)"""
+        if isinstance(t, ast.Name):
+            return t.id
+        if isinstance(t, ast.Subscript) and not isinstance(t.slice, (ast.Tuple, ast.Slice)):
+            return ast.unparse(t)
+        return None
+
+    def branch_values(self, stmts, env, names):
+        """run a block of assignments (and nested ifs of assignments) in order; returns (lets, [(term, type) of
+        each name at the end])"""
+        env = dict(env)
+        lets = []
+        for s in stmts:
+            if isinstance(s, ast.Pass) or (isinstance(s, ast.Expr) and isinstance(s.value, ast.Constant)):
+                continue
+            if isinstance(s, ast.Assign):
+                key, vnode = self.norm_assign(s, env)
+                v = self.value_maybe_nan(vnode, env)
+                nm = self.new(key)
+                lets.append((nm, v[0]))
+                env[key] = (nm, v[1])
+            elif isinstance(s, ast.If):
+                keys = self.assigned_keys([s], env)
+                for k in keys:
+                    if k not in env:
+                        raise Refuse('%s: %s assigned in a nested branch only and not defined before' % (self.rel, k))
+                c = self.cond(s.test, env)
+                tv = self.branch_values(s.body, env, keys)
+                ev = self.branch_values(s.orelse or [], env, keys)
+                tys, tt, et = [], [], []
+                for (ta, tya), (eb, tyb) in zip(tv[1], ev[1]):
+                    x, y, ty = self.unify((ta, tya), (eb, tyb))
+                    tt.append(x); et.append(y); tys.append(ty)
+                def wrap(ls, finals):
+                    body = '(' + ', '.join(finals) + ')' if len(finals) > 1 else finals[0]
+                    for nm2, term in reversed(ls):
+                        body = '(let %s := %s in %s)' % (nm2, term, body)
+                    return body
+                whole = '(if %s then %s else %s)' % (c, wrap(tv[0], tt), wrap(ev[0], et))
+                nms = [self.new(k) for k in keys]
+                if len(nms) == 1:
+                    lets.append((nms[0], whole))
+                else:
+                    lets.append(("'(%s)" % ', '.join(nms), whole))
+                for k, nm, ty in zip(keys, nms, tys):
+                    env[k] = (nm, ty)
+        return lets, [env[v] for v in names]
 
     def is_raise_guard(self, s):
         return (not s.orelse) and len(s.body) == 1 and isinstance(s.body[0], ast.Raise)
